@@ -267,6 +267,12 @@ def _round_trip(m, qs):
         return out
     out["src"] = src
     try:
+        out["def_texts"] = [[n.name, [a.arg for a in n.args.args], ast.get_source_segment(src, n.body[0].value)]
+                            for n in ast.parse(src).body
+                            if isinstance(n, ast.FunctionDef) and n.name != "create_model" and isinstance(n.body[0], ast.Return)]
+    except Exception:  # noqa: BLE001
+        out["def_texts"] = []
+    try:
         out["shape"] = source_shape(src)
     except SyntaxError:
         out["shape"] = {"err": ["SyntaxError"]}
@@ -369,9 +375,10 @@ def exhaustive_cases(thorough: bool):
     return out
 
 
-def _request(c, content):
+def _request(c, content, def_texts=None):
     table, wc = to_lean_wire(content)
-    return {"op": "c11", "fns": table, "content": wc, "bad": c.get("bad", []), "queries": c["queries"]}
+    return {"op": "c11", "fns": table, "content": wc, "bad": c.get("bad", []), "queries": c["queries"],
+            "defTexts": def_texts or []}
 
 
 def evaluate(cases, use_driver=True):
@@ -383,10 +390,10 @@ def evaluate(cases, use_driver=True):
         for i, c in enumerate(cases):
             if c.get("oracle_only"):
                 continue
-            reqs.append(_request(c, c["content"]))
+            reqs.append(_request(c, c["content"], Rs[i].get("def_texts")))
             where.append((i, "phase1"))
             if c.get("session"):
-                reqs.append(_request(c, cg.content_phase2(c["content"])))
+                reqs.append(_request(c, cg.content_phase2(c["content"]), (Rs[i].get("phase2") or {}).get("def_texts")))
                 where.append((i, "phase2"))
         for (i, ph), r in zip(where, driver.call_batch(reqs)):
             if cases[i].get("session"):
@@ -624,6 +631,15 @@ def judge_phase(ctx, case, R, M, tag=""):
                     ctx.add_drift(dict(base, queries=[]), heads, Mp["ok"]["defs"], "definition heads of an unparsable source")
         else:
             ctx.add_drift(dict(base, queries=[]), R["shape"], Mp, "Lean generator fails where the code emits source")
+    # ---- the `return` expression of every emitted definition, read by the Lean expression reader (Mxl.C07Expr, proved
+    #      against the printer policy) at sample arguments, against the Lean program's definition under that key
+    if M is not None and "defChecks" in M:
+        for (key, _, text), ok in zip(R.get("def_texts") or [], M["defChecks"]):
+            kind = "agree" if ok is True else ok if isinstance(ok, str) else "differ"
+            ctx.hist[f"def_texts_{kind}"] = ctx.hist.get(f"def_texts_{kind}", 0) + 1
+            if ok is False or ok in ("no-such-def", "other-parameters"):
+                ctx.add_drift(dict(base, queries=[]), {"def": key, "text": text}, ok,
+                              "emitted definition read by the Lean expression reader vs the Lean program's definition" + tag)
     # ---- keys of the emitted definitions: every generated name is handed out once
     if "err" not in R["shape"]:
         Mk = [d[0] for d in M["program"]["ok"]["defs"]] if M is not None and "ok" in M["program"] else None
